@@ -610,7 +610,7 @@ pub fn gen_instance(rng: &mut Rng, schema: &Value, defs: &Defs, depth: u32) -> O
         }
         "string" => {
             let max = o.get("maxLength").and_then(|m| m.as_u64()).unwrap_or(8) as usize;
-            let s: &str = *rng.pick(&["", "a", "hello", "zz top", "q\"uo", "b\\s", "t\tab", "\u{fc}ml"]);
+            let s: &str = *rng.pick(&["", "", "a", "hello", "zz top", "q\"uo", "b\\s", "t\tab", "\u{fc}ml"]);
             json!(s.chars().take(max).collect::<String>())
         }
         "integer" => {
@@ -903,33 +903,22 @@ fn gen_component(rng: &mut Rng, sw: &Swarm, index: usize) -> Component {
     }
     // an outer object schema that constrains a oneOf of references, one of which
     // cannot be an object: that alternative is unsatisfiable and typify drops it
-    // (what is left is an enum over the struct alternatives)
-    if sw.defaults == 0 && sw.cycles == 0 && rng.chance(1, 6) {
-        let structs: Vec<String> = defs
-            .iter()
-            .filter(|(_, d)| d.get("type") == Some(&json!("object")) && d.get("properties").is_some() && d.get("additionalProperties").is_none())
-            .map(|(n, _)| n.clone())
-            .collect();
-        let scalars: Vec<String> = defs
-            .iter()
-            .filter(|(_, d)| matches!(d.get("type").and_then(|t| t.as_str()), Some("string") | Some("integer") | Some("boolean")) && d.get("enum").is_none())
-            .map(|(n, _)| n.clone())
-            .collect();
-        if structs.len() >= 2 && !scalars.is_empty() {
-            let name = match names.first().map(|n| n.as_str()) {
-                Some(n) if n.contains('_') => format!("{}_pick", prefix.to_lowercase()),
-                Some(n) if n.contains('-') => format!("{}-pick", prefix.to_lowercase()),
-                _ => format!("{prefix}Pick"),
-            };
-            if !defs.contains_key(&name) {
-                let a = structs[0].clone();
-                let b = structs[1].clone();
-                let c = rng.pick(&scalars).clone();
-                defs.insert(
-                    name,
-                    json!({"type": "object", "oneOf": [r(&a), r(&b), r(&c)]}),
-                );
+    // (what is left is an enum over the struct alternatives). Always present in
+    // H5 runs: merging references is where conversion state could outlive a call.
+    if sw.defaults == 0 && sw.cycles == 0 && (sw.relation == Some("H5") || rng.chance(1, 6)) {
+        let spell = |w: &str| -> String {
+            match names.first().map(|n| n.as_str()) {
+                Some(n) if n.contains('_') => format!("{}_{}", prefix.to_lowercase(), w.to_lowercase()),
+                Some(n) if n.contains('-') => format!("{}-{}", prefix.to_lowercase(), w.to_lowercase()),
+                _ => format!("{prefix}{w}"),
             }
+        };
+        let (a, b, c, pick) = (spell("Picka"), spell("Pickb"), spell("Picktag"), spell("Pick"));
+        if [&a, &b, &c, &pick].iter().all(|n| !defs.contains_key(*n)) {
+            defs.insert(a.clone(), json!({"type": "object", "properties": {"name": {"type": "string"}, "lives": {"type": "integer"}}, "required": ["name", "lives"]}));
+            defs.insert(b.clone(), json!({"type": "object", "properties": {"name": {"type": "string"}, "breed": {"type": "string"}}, "required": ["name", "breed"]}));
+            defs.insert(c.clone(), json!({"type": "string"}));
+            defs.insert(pick, json!({"type": "object", "properties": {"name": {"type": "string"}}, "oneOf": [r(&a), r(&b), r(&c)]}));
         }
     }
     // a bare-reference alternative of an untagged enum stays only when it names a
